@@ -88,6 +88,9 @@ type c15Obs struct {
 	// one element, or one per concurrent call for the targets api:* and check:*
 	Calls []c15Call `json:"calls"`
 
+	// load-shape cases only (c15_burst.go)
+	Burst *c15BurstObs `json:"burst,omitempty"`
+
 	Hung      bool   `json:"hung,omitempty"`
 	SetupErr  string `json:"setup_error,omitempty"`
 	ElapsedMs int64  `json:"elapsed_ms"`
@@ -105,10 +108,32 @@ type c15Upstream struct {
 	mu       sync.Mutex
 	requests int
 	paths    []string
+
+	// load-shape cases: a healthy upstream answers after delay, and keeps one
+	// record per request (which query, arrival and completion on the clock
+	// that started at t0, whether the client had gone away before the answer)
+	delay time.Duration
+	t0    time.Time
+	reqs  []c15BurstReq
+
+	// connections currently open on the server side (see close)
+	conns map[net.Conn]struct{}
 }
 
+// close runs when every call of the case has returned. The connections that
+// are still open are idle keep-alive connections; they are reset instead of
+// shut down, so that they do not stay behind in TIME_WAIT for a minute: with
+// tens of thousands of cases those would use up the local ports, and the
+// closed-port upstreams (bind to port 0) could no longer be set up.
 func (u *c15Upstream) close() {
 	if u.srv != nil {
+		u.mu.Lock()
+		for c := range u.conns {
+			if tc, ok := c.(*net.TCPConn); ok {
+				_ = tc.SetLinger(0)
+			}
+		}
+		u.mu.Unlock()
 		u.srv.CloseClientConnections()
 		u.srv.Close()
 	}
@@ -153,7 +178,19 @@ func c15NewUpstream(mode, token string) (*c15Upstream, error) {
 		u.uri = fmt.Sprintf("http://127.0.0.1:%d", port)
 		return u, nil
 	}
-	u.srv = httptest.NewServer(u)
+	u.conns = map[net.Conn]struct{}{}
+	u.srv = httptest.NewUnstartedServer(u)
+	u.srv.Config.ConnState = func(c net.Conn, st http.ConnState) {
+		u.mu.Lock()
+		switch st {
+		case http.StateNew:
+			u.conns[c] = struct{}{}
+		case http.StateClosed, http.StateHijacked:
+			delete(u.conns, c)
+		}
+		u.mu.Unlock()
+	}
+	u.srv.Start()
 	u.uri = u.srv.URL
 	return u, nil
 }
@@ -169,10 +206,30 @@ func (u *c15Upstream) ServeHTTP(w http.ResponseWriter, r *http.Request) {
 	u.mu.Lock()
 	u.requests++
 	u.paths = append(u.paths, r.URL.Path)
+	t0, delay := u.t0, u.delay
 	u.mu.Unlock()
 	q := func(s string) string { b, _ := json.Marshal(s); return string(b) }
 	switch u.mode {
 	case "healthy":
+		if !t0.IsZero() {
+			rec := c15BurstReq{Key: r.Form.Get("query") + r.Form.Get("metric"), ArriveNs: time.Since(t0).Nanoseconds()}
+			if delay > 0 {
+				select {
+				case <-time.After(delay):
+				case <-r.Context().Done():
+					rec.Aborted = true
+				}
+			}
+			defer func() {
+				rec.DoneNs = time.Since(t0).Nanoseconds()
+				u.mu.Lock()
+				u.reqs = append(u.reqs, rec)
+				u.mu.Unlock()
+			}()
+			if rec.Aborted {
+				return
+			}
+		}
 		switch {
 		case strings.HasSuffix(r.URL.Path, promapi.APIPathQuery):
 			c15JSON(w, 200, `{"status":"success","data":{"resultType":"vector","result":[{"metric":{"ident":`+q(u.token)+`},"value":[1700000000,"7"]}]}}`)
@@ -211,6 +268,16 @@ func (u *c15Upstream) ServeHTTP(w http.ResponseWriter, r *http.Request) {
 		c15JSON(w, 400, `{"status":"error","errorType":"bad_data","error":`+q("bad "+u.token)+`}`)
 	case "execution":
 		c15JSON(w, 422, `{"status":"error","errorType":"execution","error":`+q("exec "+u.token)+`}`)
+	case "bad_data_200":
+		// the error object of a query error, delivered with a 2xx status
+		c15JSON(w, 200, `{"status":"error","errorType":"bad_data","error":`+q("bad "+u.token)+`}`)
+	case "execution_200":
+		c15JSON(w, 200, `{"status":"error","errorType":"execution","error":`+q("exec "+u.token)+`}`)
+	case "garbage_200":
+		// a complete, well-framed 2xx response whose body is not JSON at all
+		w.Header().Set("Content-Type", "text/html")
+		w.WriteHeader(200)
+		_, _ = io.WriteString(w, "<html><body>It works! "+u.token+"</body></html>\n")
 	case "404":
 		http.NotFound(w, r)
 	case "truncated":
@@ -240,21 +307,39 @@ func (u *c15Upstream) ServeHTTP(w http.ResponseWriter, r *http.Request) {
 type c15LogSink struct {
 	mu  sync.Mutex
 	byU map[string][]string
+	// load-shape cases: for a watched URI every logged error is also kept per query
+	byQ map[string]map[string]string
 }
 
-var c15Logs = &c15LogSink{byU: map[string][]string{}}
+var c15Logs = &c15LogSink{byU: map[string][]string{}, byQ: map[string]map[string]string{}}
+
+func (s *c15LogSink) watch(uri string) {
+	s.mu.Lock()
+	s.byQ[uri] = map[string]string{}
+	s.mu.Unlock()
+}
+
+func (s *c15LogSink) takeQueries(uri string) map[string]string {
+	s.mu.Lock()
+	defer s.mu.Unlock()
+	v := s.byQ[uri]
+	delete(s.byQ, uri)
+	return v
+}
 
 func (s *c15LogSink) Enabled(_ context.Context, l slog.Level) bool { return l >= slog.LevelWarn }
 func (s *c15LogSink) WithAttrs(_ []slog.Attr) slog.Handler         { return s }
 func (s *c15LogSink) WithGroup(_ string) slog.Handler              { return s }
 func (s *c15LogSink) Handle(_ context.Context, r slog.Record) error {
-	var uri, errText string
+	var uri, errText, query string
 	r.Attrs(func(a slog.Attr) bool {
 		switch a.Key {
 		case "uri":
 			uri = a.Value.String()
 		case "err":
 			errText = a.Value.String()
+		case "query":
+			query = a.Value.String()
 		}
 		return true
 	})
@@ -264,6 +349,11 @@ func (s *c15LogSink) Handle(_ context.Context, r slog.Record) error {
 	s.mu.Lock()
 	if len(s.byU[uri]) < 16 {
 		s.byU[uri] = append(s.byU[uri], r.Message+": "+errText)
+	}
+	if m := s.byQ[uri]; m != nil && query != "" {
+		if _, dup := m[query]; !dup {
+			m[query] = r.Message + ": " + errText
+		}
 	}
 	s.mu.Unlock()
 	return nil
@@ -336,6 +426,10 @@ func c15Timeout(modes []string) string {
 }
 
 func c15HCL(uris []string, required bool, timeout string) string {
+	return c15HCLWith(uris, required, timeout, 4, 1000)
+}
+
+func c15HCLWith(uris []string, required bool, timeout string, concurrency, rateLimit int) string {
 	var b strings.Builder
 	b.WriteString("prometheus \"prom\" {\n")
 	fmt.Fprintf(&b, "  uri = %q\n", uris[0])
@@ -349,7 +443,7 @@ func c15HCL(uris []string, required bool, timeout string) string {
 		}
 		b.WriteString("]\n")
 	}
-	fmt.Fprintf(&b, "  timeout = %q\n  rateLimit = 1000\n  concurrency = 4\n", timeout)
+	fmt.Fprintf(&b, "  timeout = %q\n  rateLimit = %d\n  concurrency = %d\n", timeout, rateLimit, concurrency)
 	fmt.Fprintf(&b, "  required = %v\n}\n", required)
 	b.WriteString("rule {\n  alerts {\n    range = \"1h\"\n    step = \"1m\"\n    resolve = \"5m\"\n    minCount = 100000\n  }\n}\n")
 	b.WriteString("rule {\n  cost {}\n}\n")
@@ -409,8 +503,12 @@ func c15Execute(cs c15Case, index int, scratch string) (o c15Obs) {
 		_ = c15Logs.take(u.uri) // nothing stale under a reused port
 	}
 
+	hcl := c15HCL(o.URIs, cs.Strict, c15Timeout(cs.Modes))
+	if cs.Burst != nil {
+		hcl = c15BurstHCL(o.URIs, cs)
+	}
 	cfgPath := filepath.Join(scratch, fmt.Sprintf("c15-%d-%d.hcl", os.Getpid(), seq))
-	if err := os.WriteFile(cfgPath, []byte(c15HCL(o.URIs, cs.Strict, c15Timeout(cs.Modes))), 0o644); err != nil {
+	if err := os.WriteFile(cfgPath, []byte(hcl), 0o644); err != nil {
 		o.SetupErr = "write config: " + err.Error()
 		return o
 	}
@@ -435,6 +533,14 @@ func c15Execute(cs c15Case, index int, scratch string) (o c15Obs) {
 
 	ctx := context.WithValue(context.Background(), config.CommandKey, config.LintCommand)
 	ctx = context.WithValue(ctx, promapi.AllPrometheusServers, gen.Servers())
+
+	if cs.Burst != nil {
+		c15ExecuteBurst(ctx, &cfg, gen, fg, ups, &o)
+		if !o.Hung {
+			gen.Stop()
+		}
+		return o
+	}
 
 	targets := c15Targets(cs.Target)
 	calls := make([]c15Call, len(targets))
@@ -645,6 +751,7 @@ func c15ChildMain(args []string) int {
 	}
 	slog.SetDefault(slog.New(c15Logs))
 	_ = c15ParsedRules()
+	_ = c15BurstParsedRules()
 	b, err := os.ReadFile(args[0])
 	if err != nil {
 		fmt.Fprintln(os.Stderr, err)
